@@ -129,6 +129,12 @@ def install_format(ex):
             tmpl = fa.fields[0]
             lit = tmpl.tag if isinstance(tmpl, Opaque) else ""
             body = lit[2:-1] if lit.startswith('b"') else None
+            tv = ex_.deref(tmpl) if not isinstance(tmpl, Opaque) else None
+            if isinstance(tv, SeqObj):
+                # the template bytes as a constant byte string: 0xc0 per placeholder, 0x00 terminator
+                bs = [z3.simplify(c.v).as_long() for c in tv.items[:tv.ln]]
+                body = "".join("\\x%02x" % b for b in bs)
+                lit = body
             if body is None or re.fullmatch(r"(\\xc0)+\\x00", body) is None:
                 raise Unsupported("format template %r is not a plain sequence of placeholders" % lit)
             parts = []
@@ -162,9 +168,13 @@ LIBTEXT = {"la": ("la", "(define-library (la) (export a b c d) (begin (define a 
 VALNUM = {"a": 1, "b": 2, "c": 3, "d": 4, "e": 5, "f": 6}
 
 
-def native_bindings(nat, import_text):
+def lib_text(name, exports):
+    return (name, "(define-library (%s) (export %s) (begin %s))" % (name, " ".join(exports), " ".join("(define %s %d)" % (e, VALNUM[e]) for e in exports)))
+
+
+def native_bindings(nat, import_text, libs=None):
     """{name: value} bound at top level after the import (the libs command lists the names; each is then evaluated)"""
-    libs = list(LIBTEXT.values())
+    libs = list(LIBTEXT.values()) if libs is None else libs
     cmd0 = "libs 0 %d %s %s" % (len(libs), " ".join("%s %s" % (hexs(n), hexs(s)) for n, s in libs), hexs("(import %s)" % import_text))
     out = nat.cmd(cmd0).split(" ;;; ")
     res = out[0].strip()
@@ -247,15 +257,17 @@ def spec_import_set(chk, shape, exports):
                    z3.And(*post), inputs, replay, pre=admissible)
 
 
-def spec_eval_import(chk):
-    """several import sets in one declaration contribute the union, defined in the target environment"""
+def spec_eval_import(chk, s1=("Only",), l1="la", s2=("Prefix",), l2="lb"):
+    """several import sets in one declaration contribute the union, defined in the target environment
+    (two import sets of the given operator shapes over the given libraries - the same library twice included)"""
     ex = chk.executor(True)
     ex.map_iter_order = "any"
     install_format(ex)
     nat = chk.ws.runner("dev")
-    unit = "Interpreter::eval_import (two import sets, union defined in the target environment)"
+    unit = "Interpreter::eval_import (two import sets %s of %s and %s of %s, union defined in the target environment)" % ("/".join(s1) or "whole", l1, "/".join(s2) or "whole", l2)
     chk.region_ns = {}
-    libs = {"la": make_library(ex, "la", ["a", "b"]), "lb": make_library(ex, "lb", ["e", "f"])}
+    exports = {"la": ["a", "b"], "lb": ["e", "f"]}
+    libs = {"la": make_library(ex, "la", exports["la"]), "lb": make_library(ex, "lb", exports["lb"])}
 
     @skel.stub(ex, r"::get_library$", "get_library -> the named 2-export library (iteration order symbolic)")
     def get_library(ex, callee, args, rt):
@@ -264,11 +276,11 @@ def spec_eval_import(chk):
         yield Ok(libs[key.tag][0])
 
     ex.key_eq_hook = lambda ex_, a, b: z3.BoolVal(getattr(ex_.deref(a), "tag", 1) == getattr(ex_.deref(b), "tag", 2))
-    t1 = Term(ex, ("Only",), Opaque("LibraryName", "la"), tag="x")
-    t2 = Term(ex, ("Prefix",), Opaque("LibraryName", "lb"), tag="y")
+    t1 = Term(ex, s1, Opaque("LibraryName", l1), tag="x")
+    t2 = Term(ex, s2, Opaque("LibraryName", l2), tag="y")
     ex.ctx.add(*(t1.constraints + t2.constraints))
-    o1 = t1.oracle(["a", "b"])
-    o2 = t2.oracle(["e", "f"])
+    o1 = t1.oracle(exports[l1])
+    o2 = t2.oracle(exports[l2])
     inputs = dict(t1.inputs)
     inputs.update(t2.inputs)
     decl = Adt("ImportDeclaration", None, [SeqObj("sets", "ImportSet", [Cell(t1.node), Cell(t2.node)], 2, 2)])
@@ -278,43 +290,39 @@ def spec_eval_import(chk):
     it.fields[2] = MapObj("imported_library", is_set=True)
 
     def replay(vv):
-        text = "%s %s" % (t1.text(vv, "(la)"), t2.text(vv, "(lb)"))
-        res, got = native_bindings(nat, text)
-        w1 = py_algebra(("Only",), vv, ["a", "b"], "x")
-        w2 = py_algebra(("Prefix",), vv, ["e", "f"], "y")
-        want = {n: VALNUM[e] for e, n in list(w1.items()) + list(w2.items())}
-        if len(want) != len(w1) + len(w2):
-            return False, "inadmissible (name collision between the two sets)"
+        text = "%s %s" % (t1.text(vv, "(%s)" % l1), t2.text(vv, "(%s)" % l2))
+        res, got = native_bindings(nat, text, [lib_text(n, exports[n]) for n in ("la", "lb")])
+        w1 = py_algebra(s1, vv, exports[l1], "x")
+        w2 = py_algebra(s2, vv, exports[l2], "y")
+        want = {}
+        for e, n in list(w1.items()) + list(w2.items()):
+            if n in want and want[n] != VALNUM[e]:
+                return False, "inadmissible (two different exports under one name)"
+            want[n] = VALNUM[e]
         return (not res.startswith("OK")) or got != want, "(import %s) binds %s (union of the two import sets: %s)" % (text, got, want)
 
-    allv = {}
-    allv.update({id(v): ("a", o1) for e, v in libs["la"][1].items() if e == "a"})
-    orc = {}
-    for e, v in libs["la"][1].items():
-        orc[id(v)] = o1[e]
-    for e, v in libs["lb"][1].items():
-        orc[id(v)] = o2[e]
-    everything = list(orc.items())
-    names = [o[1] for _, o in everything]
-    pres = [o[0] for _, o in everything]
-    admissible = z3.And(*[z3.Or(z3.Not(pres[i]), z3.Not(pres[j]), names[i] != names[j]) for i in range(len(everything)) for j in range(i + 1, len(everything))])
+    # every (export value, expected presence, expected name) of the two import sets; one value can be expected under two names
+    expected = []
+    for e, v in libs[l1][1].items():
+        expected.append((id(v), o1[e]))
+    for e, v in libs[l2][1].items():
+        expected.append((id(v), o2[e]))
+    # admissible: two DIFFERENT exports never end up under one name
+    admissible = z3.And(*[z3.Or(z3.Not(expected[i][1][0]), z3.Not(expected[j][1][0]), expected[i][1][1] != expected[j][1][1])
+                          for i in range(len(expected)) for j in range(i + 1, len(expected)) if expected[i][0] != expected[j][0]])
     f = ex.fn_by_suffix("::eval_import")
     ex.panic_hook = lambda info: chk.oblige(ex, unit, "no-panic", z3.BoolVal(False), inputs, replay)
     for rv in ex.run(f, [Ref(Cell(it)), Ref(Cell(decl)), envrc]):
         chk.path(unit)
         ok = isinstance(rv, Adt) and rv.variant == "Ok"
         post = [z3.BoolVal(ok)]
-        seen = set()
         for (k, p, cell) in target.entries:
-            o = orc.get(id(ex.deref(cell.v)))
-            if o is None:
-                post.append(z3.Not(p))
-                continue
-            seen.add(id(ex.deref(cell.v)))
-            post.append(z3.Implies(p, z3.And(o[0], k.t == o[1])))
-        for vid, o in everything:
+            vid = id(ex.deref(cell.v))
+            allowed = [z3.And(o[0], k.t == o[1]) for (i_, o) in expected if i_ == vid]
+            post.append(z3.Implies(p, z3.Or(*allowed) if allowed else z3.BoolVal(False)))
+        for vid, o in expected:
             hit = [z3.And(p, k.t == o[1]) for (k, p, cell) in target.entries if id(ex.deref(cell.v)) == vid]
-            post.append(o[0] == (z3.Or(*hit) if hit else z3.BoolVal(False)))
+            post.append(z3.Implies(o[0], z3.Or(*hit) if hit else z3.BoolVal(False)))
         chk.oblige(ex, unit, "the target environment gains exactly the union of the import sets' bindings", z3.And(*post), inputs, replay, pre=admissible)
 
 
@@ -322,19 +330,27 @@ def run(chk):
     thorough = chk.tier == "thorough"
     exports = ["a", "b", "c", "d"] if thorough else ["a", "b", "c"]
     shapes = [()] + [(o,) for o in OPS] + [(o1, o2) for o1 in OPS for o2 in OPS]
-    chk.bounds = {"import-set terms": "nesting depth <= 2 over only/except/prefix/rename (17 of the 21 operator shapes in the quick tier, all 21 in the thorough tier), identifier lists and rename lists of 2 symbolic identifiers ([a-z]{1,2}), symbolic one-letter prefix",
+    chk.bounds = {"import-set terms": "nesting depth <= 2 over only/except/prefix/rename (all 21 operator shapes; in the quick tier the four shapes with a rename innermost or twice run over a library of 2 exports), identifier lists and rename lists of 2 symbolic identifiers ([a-z]{1,2}), symbolic one-letter prefix",
                   "library": "%d exports; the iteration order of its hash table is a solver choice (every permutation)" % len(exports),
-                  "declaration": "two import sets (only / prefix) merged into one environment"}
+                  "declaration": "two import sets merged into one environment: only / prefix of two libraries, and whole + only-of-prefix, except-of-rename + whole, prefix + rename of ONE library"}
     chk.assumptions += [
         "admissible terms only: no two exports end up under one name, a rename list renames an identifier at most once (otherwise the result depends on hash order by construction)",
         "identifiers that do not occur in the set are ignored by only/except/rename (the implementation's and the oracle's reading; R7RS calls it an error)",
         "get_library is a stub returning a fixed library; std HashMap/HashSet modelled; format!(\"{}{}\") modelled as concatenation after checking the template bytes",
         "parsing of import sets (transform_import_set) is outside",
     ]
+    if not thorough:
+        chk.step_budget_s = 90.0       # 25 units of a few seconds each: one that explodes must not starve the others
     slow = {("Only", "Rename"), ("Except", "Rename"), ("Rename", "Rename"), ("Rename", "Except")}
     for sh in shapes:
         if sh in slow and not thorough:
-            chk.notes.append("shape %s: thorough tier only" % (sh,))
+            chk.notes.append("shape %s: library of 2 exports in the quick tier" % (sh,))
+            chk.step("import set %s" % (sh,), spec_import_set, chk, sh, exports[:2])
             continue
         chk.step("import set %s" % (sh,), spec_import_set, chk, sh, exports)
     chk.step("eval_import union", spec_eval_import, chk)
+    # the same library twice: as a whole next to a restricted, renamed view of it (either order)
+    chk.step("eval_import union whole+only/prefix", spec_eval_import, chk, (), "la", ("Only", "Prefix"), "la")
+    chk.step("eval_import union except/rename+whole", spec_eval_import, chk, ("Except", "Rename"), "la", (), "la")
+    if thorough:
+        chk.step("eval_import union prefix+rename", spec_eval_import, chk, ("Prefix",), "la", ("Rename",), "la")
